@@ -18,12 +18,30 @@ type shp struct {
 	E *exact.Shape
 	G geometry.Geometry // library object under the identity transform, index config "none"
 	// second realisation under another index configuration
-	G2  geometry.Geometry
+	G2 geometry.Geometry
+	// third realisation: built elsewhere under an r-tree index (MinPoints 1)
+	// and brought to its place through Move (exact offset)
+	G3 geometry.Geometry
+	// fourth realisation: the same shape scaled by 2^-30 (products of
+	// coordinate differences around 2^-56..2^-60: an absolute epsilon would bite)
+	G4  geometry.Geometry
 	tag string // curated name, "" for enumerated
 }
 
+var tinyXf = Xf{Scale: 0.5 / (1 << 30)}
+
+// movedBack builds the shape translated by (-1000, +500) under an r-tree
+// index and moves it back: the same point set, obtained as a derived object.
+func movedBack(e *exact.Shape) geometry.Geometry {
+	if e.Kind == exact.KPoly && len(e.Ext) >= 64 {
+		// past the default threshold: default options (quadtree) elsewhere, moved to its place
+		return moveGeom(geomOf(e, Xf{Scale: 0.5, Tx: 256, Ty: -128}, nil), -256, 128)
+	}
+	return moveGeom(geomOf(e, Xf{Scale: 0.5, Tx: -1000, Ty: 500}, idxCfgs[1].Opts), 1000, -500)
+}
+
 func mkShp(e *exact.Shape, cfg2 *geometry.IndexOptions) *shp {
-	return &shp{E: e, G: geomOf(e, ident, idxNone), G2: geomOf(e, ident, cfg2)}
+	return &shp{E: e, G: geomOf(e, ident, idxNone), G2: geomOf(e, ident, cfg2), G3: movedBack(e), G4: geomOf(e, tinyXf, idxNone)}
 }
 
 func poolPoints(k, off int) []*shp {
@@ -465,6 +483,15 @@ func evalPair(c *rt.Case) (bool, string, string, error) {
 	gb, err := buildGeom(c.B, cb)
 	if err != nil {
 		return false, "", "", err
+	}
+	if c.Cfg == "tiny" {
+		ga, gb = geomOf(ea, tinyXf, idxNone), geomOf(eb, tinyXf, idxNone)
+	}
+	if c.Cfg == "moved" {
+		if !t.isIdent() {
+			return false, "", "", fmt.Errorf("moved realisation is defined for the identity transform")
+		}
+		ga, gb = movedBack(ea), movedBack(eb)
 	}
 	switch c.Op {
 	case "intersects":
